@@ -24,6 +24,9 @@ def check(repo, rep, tier):
     rc.r_priority(m, rep, 'R10.1')
     rc.r_items_immutable(m, rep, 'R10.2')
     rp.r_retrieve_tree(repo, rep, 'R10.3', {'score', 'shape'})
+    rc.r_best(m, rep, 'R10.2')             # the k best come out in order only under admissible estimates (row maxima)
+    rc.r_estimates(m, rep, 'R10.2', 'out')
+    rp.r_call_locals(repo, rep, 'R10.3')
     ti = rp.r_category_table(repo, rep, 'R10.3')
     if ti:
         rp.r_sentence_loop(repo, rep, 'R10.3', ti)
